@@ -22,6 +22,7 @@ ap.add_argument("--skip-suite", action="store_true")
 a = ap.parse_args()
 checks = (a.checks or a.prop).split(",")
 wt = "/tmp/confirm_%s_%s_%d" % (a.prop, a.k, os.getpid())
+a.src = os.path.abspath(a.src)
 patch = os.path.join(a.src, "patch.diff")
 demo = os.path.join(a.src, "demo.py")
 
